@@ -237,6 +237,11 @@ func wkt(wkt string) (*SR, error) {
 	sr := NewSR()
 	err := sr.parseWKTSection([]string{}, wkt)
 
+	// PROJECTION follows GEOGCS, so datumRename cannot see the projection name.
+	if sr.Name == "Mercator_Auxiliary_Sphere" && sr.DatumCode == "wgs84" {
+		sr.sphere = true
+	}
+
 	// Convert units to meters.
 	sr.X0 *= sr.ToMeter
 	sr.Y0 *= sr.ToMeter
